@@ -915,6 +915,7 @@ def mpc_si(z, prec, rnd=round_fast):
 # is very small
 
 def mpf_besseljn(n, x, prec, rounding=round_fast):
+    origprec = prec
     prec += 50
     negate = n < 0 and n & 1
     mag = x[2]+x[3]
@@ -935,7 +936,7 @@ def mpf_besseljn(n, x, prec, rounding=round_fast):
         k += 1
     if negate:
         s = -s
-    return from_man_exp(s, -wp, prec, rounding)
+    return from_man_exp(s, -wp, origprec, rounding)
 
 def mpc_besseljn(n, z, prec, rounding=round_fast):
     negate = n < 0 and n & 1
@@ -1063,7 +1064,7 @@ def mpc_agm(a, b, prec, rnd=round_fast):
         size = mpf_min_max([mpc_abs(a,10), mpc_abs(b,10)])[1]
         err = mpc_abs(mpc_sub(a, b, 10), 10)
         if size == fzero or mpf_lt(err, mpf_mul(eps, size)):
-            return a
+            return mpc_pos(a, prec, rnd)
 
 def mpc_agm1(a, prec, rnd=round_fast):
     return mpc_agm(mpc_one, a, prec, rnd)
